@@ -474,7 +474,10 @@ def xstack_effect(opcode, opc, oparg: int = 0, jump=None):
         return -oparg
     if opname == "BUILD_MAP" and version_tuple >= (3, 5):
         return 1 - (2 * oparg)
-    elif opname in ("UNPACK_SEQUENCE", "UNPACK_EX") and version_tuple >= (3, 0):
+    elif opname == "UNPACK_EX" and version_tuple >= (3, 0):
+        # low byte: items before the starred target; high part: items after it
+        return push + (oparg & 0xFF) + (oparg >> 8)
+    elif opname == "UNPACK_SEQUENCE" and version_tuple >= (3, 0):
         return push + oparg
     elif opname in (
         "BUILD_LIST",
